@@ -17,6 +17,8 @@ is unchanged; and (trace hook of /repo, `proc` events) the timeout every process
 Timeouts are observed for real in family "timed": exactly one probe of the case is a sleeper (records, sleeps 3 s,
 records again).  With `timeout = 1` in force it must be killed (HARD_ERROR, nothing but [cleanup] follows), with
 60 (default) / 30 / none it must finish.  These cases run in a pool of their own, in parallel with the others.
+In the other families no process sleeps and the short limit of the model is written `timeout = 7` (an overloaded
+machine must not end an ordinary probe); a case that disagrees is run a second time before it is reported.
 """
 import itertools
 import json
